@@ -170,10 +170,49 @@ def domain_mismatch(col):
     col.check("argument-validation", chk)
 
 
+def trimming_contract(col, g, n):
+    """"Infinity represented by a large finite number when trimming is on": trim_inf changes infinite values only.  Many-node rules put nodes
+    so close to the singular end that the (finite) Jacobian there is huge; the transported grid of the trimming transform must agree with the
+    one of the same transform without trimming wherever the latter is finite."""
+    rmin = float(g.uniform(0.0, 0.3))
+    R = float(g.uniform(0.8, 2))
+    pairs = [("BeckeRTransform", lambda t: rt.BeckeRTransform(rmin, R, trim_inf=t)),
+             ("KnowlesRTransform", lambda t: rt.KnowlesRTransform(rmin, R, 3, trim_inf=t)),
+             ("HandyRTransform", lambda t: rt.HandyRTransform(rmin, R, 3, trim_inf=t)),
+             ("MultiExpRTransform", lambda t: rt.MultiExpRTransform(rmin, R, trim_inf=t))]
+    for tname, mk in pairs:
+        for rule in ("GaussLegendre", "GaussChebyshev"):
+            grid = getattr(og, rule)(n)
+            inp = {"rule": rule, "n": n, "transform": tname, "rmin": rmin, "R": R}
+
+            def chk(mk=mk, grid=grid):
+                with np.errstate(all="ignore"):
+                    a = mk(True).transform_1d_grid(grid)
+                    b = mk(False).transform_1d_grid(grid)
+                for what, u, v in (("nodes", a.points, b.points), ("weights", a.weights, b.weights)):
+                    fin = np.isfinite(v)
+                    if not np.array_equal(u[fin], v[fin]):
+                        k = int(np.argmax(u[fin] != v[fin]))
+                        return False, f"trim_inf changed a finite value: {what} {u[fin][k]!r} with trimming, {v[fin][k]!r} without (old node {grid.points[fin][k]!r})"
+                    if np.any(~np.isfinite(u)):
+                        return False, f"non-finite {what} although trimming is on"
+                return True, None
+            cid = f"trimming-only-replaces-infinities:{tname}"
+            ok = col.check(cid, chk, inputs=inp, sample=inp)
+            if not ok and "should not be above domain" in (col.last_failure["detail"] or ""):
+                # signature of the recorded finding: the infinite domain end became 1e16 and a finite node is mapped beyond it
+                with np.errstate(all="ignore"):
+                    mapped = np.asarray(mk(True).transform(grid.points), dtype=float)
+                    ends = np.asarray(mk(True).transform(np.array(grid.domain, dtype=float)), dtype=float)
+                if np.max(np.abs(ends)) == 1e16 and np.any(np.isfinite(mapped) & (np.abs(mapped) > 1e16)):
+                    col.last_failure["case_id"] = cid + ":known-finite-node-beyond-trimmed-infinity"
+
+
 def run(tier, seed, *rest):
     col = Collector("13 real 1-D rules (odd and even n) x 11 real transforms with random admissible parameters: nodes mapped, weights = |r'| w, "
                     "sign preservation, ordered image domain containing the nodes, input untouched; transported exactness of Gauss-Legendre under "
-                    "linear maps; reference integrals on [0,inf) incl. the decreasing multi-exponential map; distinct = (contract, transform)")
+                    "linear maps; reference integrals on [0,inf) incl. the decreasing multi-exponential map; rules with 150..400 (thorough: ..1000) nodes through "
+                    "trimming and non-trimming variants of the same transform agree on every finite value; distinct = (contract, transform)")
     g = rng(seed, "C04")
     sizes = [7, 10] if tier == "quick" else [3, 7, 10, 21, 50]
     for n in sizes:
@@ -188,7 +227,23 @@ def run(tier, seed, *rest):
                 if tname == "HyperbolicRTransform" and rule != "UniformInteger":
                     continue      # the hyperbolic map is only defined below its pole x < 1/b: integer grids with b (n-1) < 1
                 structure_contract(col, rule, kw, tname, tf, grid)
+    # grids whose domain is a strict sub-interval of the transform's domain (chained transforms, hand-built grids)
+    for n in sizes[:2]:
+        gl = og.GaussLegendre(n)
+        a, b = sorted(g.uniform(-0.9, 0.9, 2))
+        sub = OneDGrid(0.5 * (b - a) * gl.points + 0.5 * (a + b), 0.5 * (b - a) * gl.weights, (float(a), float(b)))
+        half = rt.LinearFiniteRTransform(-1.0, 0.0).transform_1d_grid(gl)
+        for grid, label in ((sub, "sub-interval"), (half, "chained-linear")):
+            for tname, tf in transforms_for("pm1", g, n):
+                structure_contract(col, f"GaussLegendre[{label}]", {}, tname, tf, grid)
+        lag = og.GaussLaguerre(n)
+        fin = OneDGrid(lag.points / (1 + lag.points) * 5.0, lag.weights, (0.0, 5.0))
+        for tname, tf in transforms_for("pos", g, n):
+            if tname != "HyperbolicRTransform":
+                structure_contract(col, "hand-built[(0,5)]", {}, tname, tf, fin)
     integral_contracts(col, g, tier)
+    for n in ([150, 400] if tier == "quick" else [60, 150, 400, 1000]):
+        trimming_contract(col, g, n)
     domain_mismatch(col)
     return col.result()
 
